@@ -258,3 +258,27 @@ def write_cfg(path, spec, constants, invariants=(), properties=(), postcondition
 
 def tla_set(xs):
     return "{" + ", ".join(str(x) if not isinstance(x, str) else '"%s"' % x for x in xs) + "}"
+
+
+def report_known(c, prop):
+    """Re-runs the witness of every recorded (not repaired) finding that concerns this property.  A finding whose
+    witness still shows the defect is reported as KNOWN-FINDING; one that no longer does is reported as stale."""
+    for f in load_known():
+        if f["status"] != "known" or (f["property"] != prop and prop not in f.get("also_affects", [])):
+            continue
+        w = os.path.join(VERIF, f["witness"])
+        if not os.path.exists(w):
+            continue
+        wd = os.path.join(WORK, "witness-%s-%s" % (prop, f["id"]))
+        try:
+            p = subprocess.run([AXV, "probe", "--dir", wd, "--timeout", "30"], stdin=open(w), stdout=subprocess.PIPE,
+                               stderr=subprocess.DEVNULL, text=True, timeout=120)
+            out = p.stdout
+        except subprocess.TimeoutExpired:
+            out = "HANG"
+        shutil.rmtree(wd, ignore_errors=True)
+        if re.search(f["marker"], out):
+            c.known(f["id"], "%s [%s] witness=%s" % (f["what_fails"], f["call_site"], f["witness"]))
+        else:
+            c.notes.append("recorded finding %s no longer reproduces with its witness (stale entry?)" % f["id"])
+            log("STALE-FINDING %s" % f["id"])
